@@ -396,6 +396,9 @@ def plan_C14(q, seed):
         rand_job("WF", 120000 if q else 2500000, time_limit=25 if q else 300),
         rand_job("FULL", 40000 if q else 800000, time_limit=15 if q else 200),
         fam_job("WF", 30000 if q else 600000, time_limit=15 if q else 200),
+        # an adoption is also undone when the peer dies: after an elided unadopt the survivor's table must
+        # be purged of the dead peer completely (whatever the recorded multiplicities were)
+        rand_job("ELIDE", 60000 if q else 1200000, time_limit=20 if q else 300, label="rand-ELIDE-cost-e1"),
     ]
     return {
         "jobs": jobs,
